@@ -29,7 +29,7 @@ var c07Versions = [][2]int{{2, 0}, {1, 1}, {1, 0}}
 var c07ContentTypes = []string{"exact", "-", "application/octet-stream", "exact;charset=utf-8", "application/grpc+thrift", "APPLICATION/PROTO", "application/connect+", "bare"}
 var c07Encodings = []string{"-", "gzip", "zstd", "", "identity"}
 var c07Accepts = []string{"-", "gzip", "zstd, gzip", "", ",,,", "identity"}
-var c07Timeouts = []string{"-", "1S", "100", "", "1", "S", "1x", "-1S", "999999999S", "12345678901", "1 S", "١S", "18446744073709551616n", "100000000H", "123456789012345678H", "100000000m", "99999999H"}
+var c07Timeouts = []string{"-", "1S", "100", "", "1", "S", "1x", "-1S", "999999999S", "12345678901", "1 S", "١S", "18446744073709551616n", "100000000H", "123456789012345678H", "100000000m", "99999999H", "-1", "+5", "-0", "+5S", "-0S"}
 
 var c07CLens = []string{"-", "exact", "max", "max-300"}
 
